@@ -46,6 +46,27 @@ def gen_scenario(ctx, k):
     nodes = cfggen.assign_tree(rng, cfg, absent_prob=rng.choice([0.0, 0.0, 0.3]), unknown=1)
     m = statemodel.Model(cfg, nodes)
     sc = Scn(seed=ctx.seed * 79 + k, watchdog=300000)
+    prelude = variant == 'plain' and rng.random() < 0.5
+    if prelude:
+        # an earlier session of the same process with the SAME node tree but the opposite SecAck setting on every board: whether a report is
+        # mirrored depends on the configuration of the session it arrives in, whoever reported from that address before
+        import copy
+        cfg2 = copy.deepcopy(cfg)
+        for b in cfg2['boards']:
+            f = [(n_, v_) for (n_, v_) in (b['features'] or []) if n_ != 3]
+            if not cfggen.secack(b):
+                f.append((3, 1))
+            b['features'] = f or None
+        d2 = cfggen.write_config(cfg2, cfg_dir(f'c19_{k}_pre'))
+        m2 = statemodel.Model(cfg2, nodes)
+        conn2 = [b for b in cfg2['boards'] if m2.connected(b['id'])]
+        sc.add(*cfggen.bus_lines(cfg2, nodes), 'bus brackets 0', 'bus policy 19 never', f'start {d2} 0', 'quiesce', 'mark pre')
+        for _ in range(rng.randrange(1, 6)):
+            if conn2:
+                b2 = rng.choice(conn2)
+                kind2, data2 = gen_report(rng, b2)
+                sc.add(up(model.build_msg(m2.addr[b2['id']], 0, C(kind2), data2)), 'quiesce')
+        sc.add('stop', 'bus clear')
     sc.add(*cfggen.bus_lines(cfg, nodes), 'bus brackets 0', 'bus policy 19 never', f'start {d} 0', 'quiesce', 'flush', 'quiesce')
     conn = [b for b in cfg['boards'] if m.connected(b['id'])]
     cases = []
@@ -152,15 +173,15 @@ def gen_scenario(ctx, k):
             # time passes, then any message from that node lets the library notice the expiry
             sc.add('advance 3', up(model.build_msg(ad, 0, C('MSG_BM_CURRENT'), bytes([250, 0]))), 'quiesce')
     sc.add(f'mark c{n + 1}', 'stop')
-    return sc.text(), cfg, nodes, cases, variant + ('+nested' if nested is not None else '') + ('+address-reuse' if reused[0] else ''), blocked_board['id'] if blocked_board else None
+    return sc.text(), cfg, nodes, cases, variant + ('+nested' if nested is not None else '') + ('+address-reuse' if reused[0] else '') + ('+earlier-session' if prelude else ''), blocked_board['id'] if blocked_board else None
 
 def evaluate(ctx, r, cfg, nodes, cases, variant, blocked, meta):
     if ctx.generic_failures(r, meta):
         return
     if runner.outcome(r) != 'ok':
         return
-    begin, ret_i = fold.session_start_index(r.events)
-    if ret_i is None or r.events[ret_i].get('r') != 0:
+    rets = [e for e in r.events if e.get('e') == 'ret' and e.get('f') == 'bidib_start_pointer']
+    if not rets or any(e.get('r') != 0 for e in rets):
         ctx.inconclusive.append('start failed')
         return
     ctx.evaluations += 1
@@ -227,6 +248,8 @@ def evaluate(ctx, r, cfg, nodes, cases, variant, blocked, meta):
                     return
         nmir += len(mir)
     ctx.count('mirrors_checked', nmir)
+    if 'earlier-session' in variant:
+        ctx.count('scenarios_with_earlier_session_of_opposite_secack')
     if 'address-reuse' in variant:
         ctx.count('scenarios_with_address_reuse')
     if '+nested' in variant:
